@@ -35,3 +35,16 @@ Fixpoint srun (s : sst) (ops : list sop) : list val :=
                  VL [vopt enc_table (s_mem s'); vopt enc_table (s_file s')] :: srun s' rest
   end.
 Definition run_sampler (ops : list sop) : val := VL (srun (mk_sst None None) ops).
+
+(* the same history interpreted through control-flow data (the regenerated flows in the correspondence) *)
+From XV Require Import HarvestFlow.
+Definition run_harvest_flow (fl : flows) (st : sites) (name : string) (e : engine) (ops : list fop) : val :=
+  VL (map (enc_hstate name e) (frun fl st name e (mk_hst None []) ops)).
+Fixpoint srun_flow (sa : sadd_flow) (sf : save_flow) (s : sst) (ops : list sop) : list val :=
+  match ops with
+  | [] => []
+  | o :: rest => let s' := match o with SAdd rows sync => sadd_flow_run sa sf s rows sync | _ => sstep s o end in
+                 VL [vopt enc_table (s_mem s'); vopt enc_table (s_file s')] :: srun_flow sa sf s' rest
+  end.
+Definition run_sampler_flow (sa : sadd_flow) (sf : save_flow) (ops : list sop) : val :=
+  VL (srun_flow sa sf (mk_sst None None) ops).
